@@ -176,9 +176,19 @@ fn prelude(t: &mut Tracer) {
     }
 }
 
+/// ... and U+2212 MINUS SIGN (a multi-byte character) in every position where a sign can stand, through all thirteen parsers
+const MINUS_PROBES: [&str; 12] = ["\u{2212}PT1H", "\u{2212}P1D", "\u{2212}P", "P\u{2212}1D", "PT\u{2212}1H", "\u{2212}002020-01-01", "\u{2212}002020-01-01T00:00Z", "2020-01-01T00:00\u{2212}05:00",
+    "2020-01-01T00:00\u{2212}05:00[\u{2212}05:00]", "T12:30\u{2212}05:00", "\u{2212}05:00", "\u{2212}05"];
+const ALL_PARSERS: [&str; 13] = ["PlainDate", "PlainDateTime", "PlainTime", "PlainYearMonth", "PlainMonthDay", "Instant", "ZonedDateTime", "Duration", "UtcOffset", "TimeZoneId", "TimeZone", "MonthCode", "Calendar"];
+fn prelude_signs(t: &mut Tracer) {
+    for s in MINUS_PROBES { for ty in ALL_PARSERS { t.call(&format!("Parse.{}", ty), json!({"chars": chars_tok(s)})); } }
+    t.reset();
+}
+
 pub fn drive(t: &mut Tracer, r: &mut Rng, n: usize) {
     let small = ["UtcOffset", "TimeZoneId", "TimeZone", "MonthCode", "Calendar"];
     prelude(t);
+    prelude_signs(t);
     let n = n + t.n;   // the prelude does not count against the requested number of random events
     while t.n < n {
         let ty: &str = if r.chance(4, 5) { *r.pick(&TYPES) } else { *r.pick(&small) };
